@@ -13,7 +13,7 @@ import PoetryVerif.Drv.Conc
 open Poetry Poetry.Proto
 
 def handlers : List (String → List String → Option String) :=
-  [Poetry.Drv.handleVC, Poetry.Drv.handleGeneric, Poetry.Drv.handleMarker, Poetry.Drv.handleConc]
+  [Poetry.Drv.handleVC, Poetry.Drv.handleGeneric, Poetry.Drv.handleMarkerAll, Poetry.Drv.handleConc]
 
 def dispatch (op : String) (args : List String) : List (String → List String → Option String) → String
   | [] => "bad-op"
